@@ -9,7 +9,7 @@ for n in $names; do
   [ -f seeded/$n/meta.json ] || continue
   c=$(python3 -c "import json;print(json.load(open('/verif/seeded/$n/meta.json'))['property'])")
   git -C /repo diff --quiet || { echo "/repo dirty, abort"; exit 3; }
-  git -C /repo apply seeded/$n/patch.diff || { echo "$n: patch does not apply" | tee -a $OUT.tmp; continue; }
+  git -C /repo apply /verif/seeded/$n/patch.diff || { echo "$n: patch does not apply" | tee -a $OUT.tmp; continue; }
   ./check $c > /var/tmp/regress_$n.txt 2>&1; rc=$?
   git -C /repo checkout -- .
   v=$(grep -c "^VIOLATION property=$c" /var/tmp/regress_$n.txt)
